@@ -98,6 +98,27 @@ for c in req.get("cases", []):
                 if cand:
                     idx = classes[cand[0]]
                     moved = idx[1::2] if doc.get("mode") == "odd" else idx[len(idx) // 2:]
+                    if doc.get("mode") == "centring":
+                        # keep exactly the positions of the expressions WITHOUT the centring translations (at the
+                        # parameters the undoctored call reports), move the centred copies to the new class
+                        from matid.data.symmetry_data import WYCKOFF_SETS
+                        ent = WYCKOFF_SETS[row["number"]][l0[idx[0]]]
+                        try:
+                            s0 = [w for w in an._get_wyckoff_sets(sys0, row["number"], np.array(l0), np.array(e0), precision=an.symmetry_tol, return_parameters=True)
+                                  if list(w.indices) == idx][0]
+                            W = np.array([v if v is not None else 0.0 for v in (s0.x, s0.y, s0.z)])
+                            pts = (np.dot(W, np.array(ent["matrices"])) + np.array(ent["constants"])) % 1.0
+                            P = sys0.get_scaled_positions()
+                            keep = []
+                            for i in idx:
+                                dd = np.abs(pts - P[i])
+                                dd = np.minimum(dd, 1.0 - dd)
+                                if (dd.max(axis=1) < 1e-6).any():
+                                    keep.append(i)
+                            if 0 < len(keep) < len(idx):
+                                moved = [i for i in idx if i not in keep]
+                        except Exception:  # noqa
+                            pass
                     newid = max(classes) + 1
                     for i in moved:
                         e0[i] = newid
